@@ -68,20 +68,23 @@ def statLine (spec : Bool) (s : St Float) : String :=
   let maxavg := v.maxComplete.toFloat * vS.toFloat / vI.toFloat * 1000.0
   s!"[p={v.pass} b={blk} c={v.complete} conc={v.conc} avgrt={fbits (fA.avgRt (avgRtOf v))} minrt={fbits v.minRt.toFloat} qps={fbits (fA.qps v.pass)} maxavg={fbits maxavg}]"
 
-def stepLine (spec : Bool) (s : St Float) (ts : List String) (_ : String) : St Float × Option String :=
+/-- `repaired = true` (DESIGN 2.6: the finding `nan-trigger` no longer reproduces on the tree under test):
+    inside the finding's region the model takes the repaired variant of the fragment, i.e. the decision the
+    property demands; outside the region it is the code-shaped model as always -/
+def stepLine (spec : Bool) (repaired : Bool) (s : St Float) (ts : List String) (_ : String) : St Float × Option String :=
   match ts with
   | ["stat"] => if s.started then (s, some (statLine spec s)) else (s, some "bad-op")
   | _ =>
     match parseOp? ts with
     | none => (s, some "bad-op")
     | some op =>
-      let (s', r) := step fA spec s op
+      let (s', r) := step fA (spec || (repaired && hasNanTrigger s)) s op
       match op, r with
       | .entry _ true _, .pass =>
           -- known finding `nan-trigger`: a NaN trigger of a `≥`-type rule is never reached, yet the code
           -- (`!(v < NaN)`) rejects every inbound request
           -- (inside the region the spec state follows the as-is transition so that later lines stay comparable)
-          if spec && hasNanTrigger s then
+          if spec && !repaired && hasNanTrigger s then
             let (s2, r2) := step fA false s op
             if r2 == .blockSys then (s2, some "?known:nan-trigger:pass") else (s', showRes r)
           else (s', showRes r)
@@ -91,7 +94,7 @@ def stepLine (spec : Bool) (s : St Float) (ts : List String) (_ : String) : St F
     with the metric types of the violated loaded rules and with the role of the BBR capacity term
     (`over`/`under` when some BBR load/cpu rule has its reading above the trigger, `na` otherwise) -/
 def explainLine (s : St Float) (ts : List String) (ln : String) : St Float × Option String :=
-  let (s', r) := stepLine false s ts ln
+  let (s', r) := stepLine false false s ts ln
   match parseOp? ts, r with
   | some (.entry _ true _), some r =>
     if !s.started then (s', some r) else
@@ -100,11 +103,15 @@ def explainLine (s : St Float) (ts : List String) (ln : String) : St Float × Op
     let armed := s.rules.any fun x => x.strategy == 1 &&
       ((x.metric == 0 && decide (x.trigger < v.load)) || (x.metric == 4 && decide (x.trigger < v.cpu)))
     let bbr := if !armed then "na" else if decide (overCapacity fA v) then "over" else "under"
-    (s', some (r ++ " ; viol=" ++ ",".intercalate viol ++ " ; bbr=" ++ bbr ++ " ; conc=" ++ toString v.conc))
+    -- the capacity comparison in exact rational arithmetic (conc > m·2·minRt/1000) next to the binary64 one
+    let exactOver := decide (1 < v.conc) && decide ((v.maxComplete * vS * v.minRt : Int) < v.conc * 1000)
+    let fx := if exactOver == decide (overCapacity fA v) then "same" else "diff"
+    (s', some (r ++ " ; viol=" ++ ",".intercalate viol ++ " ; bbr=" ++ bbr ++ " ; conc=" ++ toString v.conc ++ " ; fx=" ++ fx))
   | _, _ => (s', r)
 
-def run (mode : String) : IO Unit :=
+def run (mode : String) : IO Unit := do
+  let rep := ((← IO.getEnv "VERIF_C07_REPAIRED").getD "") == "nan-trigger"
   if mode == "explain" then loop init explainLine
-  else loop init (stepLine (mode == "spec"))
+  else loop init (stepLine (mode == "spec") rep)
 
 end Sentinel.Drv.C07
